@@ -69,6 +69,32 @@ theorem memo_effective (c : Cfg V L E) (P : Hyps c) (v : V) (l : L) (hf : c.f = 
   have hl := lookup_complete c P hf F this
   simp only [call, hl]
 
+/-- **function_transparent_catchall** (the repaired code: `except Exception:` around the load).  With a catch-all clause
+neither H2 nor H3 is needed: for every history, if the pickle never *silently* loads anything but the right entry from a
+file that the history can produce (`hsound`; loading may fail in any way), a completed call returns what the uncached call
+returns.  Whether a reachable mixture `take k new ++ drop k old` can load silently to a wrong value is what
+`stream_two_crashes` / `stream_mixture_exploration` look for on the real pickle. -/
+theorem function_transparent_catchall (c : Cfg V L E) (hall : ∀ e, c.caught e = true)
+    (hsound : ∀ (h : List (Event E)) (d : Data V L), c.pk.load (fileAfter c h []) = .ok d →
+        (∃ l v, d = .old l true v) ∨ ∃ v l, c.f = .ret v l ∧ (d = .entry v l ∨ d = .old l false v))
+    (h : List (Event E)) (nonce : Nat) :
+    (call c ⟨nonce, .none⟩ (fileAfter c h [])).2.sameAs (uncached c) := by
+  have miss_ok : lookup c (fileAfter c h []) = .miss → (call c ⟨nonce, .none⟩ (fileAfter c h [])).2.sameAs (uncached c) := by
+    intro hm
+    cases hf : c.f with
+    | ret v l => simp [call, hm, hf, uncached, Outcome.sameAs]
+    | exc e l => simp [call, hm, hf, uncached, Outcome.sameAs]
+  cases hl : c.pk.load (fileAfter c h []) with
+  | error e =>
+    apply miss_ok; simp [lookup, hl, hall]
+  | ok d =>
+    rcases hsound h d hl with ⟨l, v, rfl⟩ | ⟨v, l, hf, rfl | rfl⟩
+    · apply miss_ok; simp [lookup, hl, hall]
+    · have : lookup c (fileAfter c h []) = .hit v l := by simp [lookup, hl]
+      simp [call, this, uncached, hf, Outcome.sameAs]
+    · have : lookup c (fileAfter c h []) = .hit v l := by simp [lookup, hl]
+      simp [call, this, uncached, hf, Outcome.sameAs]
+
 /-- **h3_necessary.**  Determinism of the dump (H3) cannot be dropped: there is a pickle satisfying H0, H1, H2 with two
 encodings of the same entry for which two killed writers leave a file that loads *silently* as a wrong value
 (file `take 1 [0,1,5] ++ drop 1 [1,1,0]` = `[0,1,0]`). -/
